@@ -296,7 +296,7 @@ fn odd_state_section(shard: Shard, rep: &mut Report) {
     use crate::world::{Scratch, Size, Val};
     let mut no = 0u64;
     for sharded in [false, true] {
-        for state in ["dangling-symlink", "symlink-to-directory", "directory"] {
+        for state in ["dangling-symlink", "symlink-to-directory", "directory", "stale-temp-subdirectory", "stale-temp-fifo"] {
             for opk in 0..6u8 {
                 no += 1;
                 if !shard.mine(no) {
@@ -317,9 +317,29 @@ fn odd_state_section(shard: Shard, rep: &mut Report) {
                             std::fs::create_dir_all(&gone).unwrap();
                             std::os::unix::fs::symlink(&gone, home.join("k")).unwrap();
                         }
-                        _ => std::fs::create_dir_all(home.join("k")).unwrap(),
+                        "directory" => std::fs::create_dir_all(home.join("k")).unwrap(),
+                        "stale-temp-subdirectory" => {
+                            std::fs::create_dir_all(home.join(".kismet_temp/staging/inner")).unwrap();
+                            std::fs::write(home.join(".kismet_temp/staging/inner/f"), b"x").unwrap();
+                        }
+                        _ => {
+                            std::fs::create_dir_all(home.join(".kismet_temp")).unwrap();
+                            let c = std::ffi::CString::new(home.join(".kismet_temp/pipe").to_string_lossy().as_bytes()).unwrap();
+                            unsafe { libc::mkfifo(c.as_ptr(), 0o600) };
+                        }
                     }
                 });
+                let in_temp = state.starts_with("stale-temp");
+                if in_temp {
+                    // debris two hours old that maintenance cannot (sub-directory) or can (pipe) unlink; the write's
+                    // maintenance fires
+                    let old = crate::run::base_time_ns() as i128 - 7_200_000_000_000;
+                    for rel in [".kismet_temp/staging/inner", ".kismet_temp/staging", ".kismet_temp/pipe"] {
+                        if crate::world::lstat(&home.join(rel)).is_some() {
+                            crate::world::set_times(&home.join(rel), old, old);
+                        }
+                    }
+                }
                 let cfg = StackCfg { writer: Some((front, 1 << 40)), readers: vec![], checker: Checker::None, auto_sync: true };
                 let cache = crate::ops::build(&cfg, &dirs, None);
                 let v = Val::new(1, Size::One);
@@ -339,7 +359,11 @@ fn odd_state_section(shard: Shard, rep: &mut Report) {
                 if pid == 0 {
                     crate::shim::set_controller(Some(std::sync::Arc::new(Budget { budget: 3000, n: std::sync::atomic::AtomicU64::new(0) })));
                     let _ = crate::run::as_participant(0, 0, || {
-                        crate::run::trigger_never();
+                        if in_temp {
+                            crate::run::trigger_fire_next(u64::MAX);
+                        } else {
+                            crate::run::trigger_never();
+                        }
                         crate::ops::exec(&cache, &dirs, &op, &Default::default())
                     });
                     unsafe { libc::_exit(0) };
